@@ -167,6 +167,35 @@ Theorem dfan_directory_coherent : forall s kind g r s' found, (kind = DFAN_LABEL
 Proof. exact locate_spec. Qed.
 Print Assumptions dfan_directory_coherent.
 
+(** round 3: ANget_tagref(index) names the annotation ANselect(index) selects -- its tag/ref is what ANid2tagref gives
+    for that identifier -- and that annotation exists and has the requested type.  (Which ANentry field ANget_tagref
+    reports is regenerated from mfan.c: reporting the OBJECT's ref instead breaks this proof.) *)
+Theorem an_get_tagref_names_selected : forall l idx ty l1 g r, Good l -> tyok ty -> ANget_tagref l idx ty = (l1, Some (g, r)) ->
+  exists l2 id, ANselect l1 idx ty = (l2, id) /\ id <> FAILV /\ ANid2tagref l2 id = Some (g, r) /\ g = tag_of_type ty /\
+                (exists x, Repr l2 x /\ a_key x = (ty, r)).
+Proof. exact get_tagref_agrees. Qed.
+Print Assumptions an_get_tagref_names_selected.
+
+(** round 3: the harness' gettagref line (ANget_tagref, then ANid2tagref(ANselect(index))) simulates the
+    specification's XGetTagref: same failure condition (index outside 0..count-1, no session), and on success both
+    pairs are the tag/ref of one existing annotation of the requested type *)
+Theorem an_get_tagref_refines : forall h a e ty idx h' mr x' sr, Sim h a -> tyok ty ->
+  m_gettagref h ty idx = (h', mr) -> xstep (mkx a e) (XGetTagref ty idx (ref2 mr)) = (x', sr) ->
+  Sim h' (x_st x') /\ accepts sr mr.
+Proof. exact sim_gettagref. Qed.
+Print Assumptions an_get_tagref_refines.
+
+(** round 3: the two workers of the file-annotation enumeration, whose choice of static cell (Next_label_ref /
+    Next_desc_ref, No_more_labels / No_more_descs), restart test, exhaustion test and start ref are regenerated from
+    dfan.c, are exactly "one cursor and one end flag per kind, restarted by isfirst = 1"; [an_refines_map]'s
+    enumeration lemmas go through this form, so a statement that touches the other kind's cursor, or a dropped
+    restart, breaks the proofs. *)
+Theorem dfan_enumeration_cursors : forall s kind isfirst, kind_ok kind -> (isfirst = false -> l_nextf s kind <> 0) ->
+  DFANIgetfannlen s kind isfirst = getfannlen_simple s kind isfirst /\
+  DFANIgetfann s kind isfirst = getfann_simple s kind isfirst.
+Proof. intros s kind isfirst Hk Hn. split; [exact (getfannlen_eq s kind isfirst Hk Hn) | exact (getfann_eq s kind isfirst Hk Hn)]. Qed.
+Print Assumptions dfan_enumeration_cursors.
+
 (** corollary kept from the earlier round: the AN interface alone needs no directory invariant *)
 Theorem an_refines_map_an_interface :
   (forall h a o h' mr a' sr, Sim h a -> an_op o -> mstep h o = (h', mr) -> step a (fill o mr) = (a', sr) ->
@@ -302,3 +331,19 @@ Proof.
   apply (grun_sim [0; 1]); [apply GSim_init; [left; reflexivity | exact demo_names_ok]|].
   repeat (constructor; [first [full_op_tac | simpl; tauto]|]). constructor.
 Qed.
+
+(** non-vacuity (round 3): ANget_tagref on a data label whose own ref (2) differs from its object's ref (1), and an
+    interleaved enumeration of two file labels and two file descriptions in the model *)
+Example demo_get_tagref :
+  let h := mrun hinit [OStart; OCreate 0 0 700 5 0; OWrite 0 [65]; OCreate 1 0 700 1 0; OWrite 1 [66]] in
+  snd (m_gettagref h 0 0) = MOk [104; 2; 104; 2] [] /\ snd (m_gettagref h 0 1) = MOk [104; 1; 104; 1] [] /\ snd (m_gettagref h 0 2) = MFail.
+Proof. vm_compute. repeat split. Qed.
+Example demo_interleaved_enumeration :
+  let g0 := grun (ginit (fun _ => [104])) [GOp (ODfAddF 0 [65] 0); GOp (ODfAddF 0 [66; 66] 0); GOp (ODfAddF 1 [0] 0); GOp (ODfAddF 1 [1; 1] 0)] in
+  let '(g1, r1) := g_fann_len g0 0 true in let '(g2, r2) := g_fann_get g1 0 true 9 in
+  let '(g3, r3) := g_fann_len g2 1 true in let '(g4, r4) := g_fann_get g3 1 true 9 in
+  let '(g5, r5) := g_fann_len g4 0 false in let '(g6, r6) := g_fann_len g5 1 false in
+  let '(g7, r7) := g_fann_get g6 0 false 2 in let '(g8, r8) := g_fann_len g7 0 false in
+  r1 = MOk [1; 1] [] /\ r3 = MOk [1; 1] [] /\ r5 = MOk [2; 2] [] /\ r6 = MOk [2; 2] [] /\
+  r7 = MOk [1; 2] [[66; 0]] /\ r8 = MFail.
+Proof. vm_compute. repeat split. Qed.
